@@ -54,6 +54,9 @@ def _case(draw):
         if req and draw(st.sampled_from([False, False, True])):
             req = req + [draw(st.sampled_from(req))]          # a channel may be named twice: it is converted once
     curve_kind = draw(st.sampled_from(['power', 'power', 'power', 'tanh', 'affine']))
+    if draw(st.integers(0, 7)) == 0:
+        # channel names may be numerals: '3', '2', '1' (the name '1' is then not position 1)
+        spec['names'] = [str(len(spec['widths']) - j) for j in range(len(spec['widths']))]
     if spec['datatype'] == 'F' and spec['n'] > 0 and draw(st.sampled_from([True, False, False])):
         # floating-point files can hold infinite and not-a-number readings; a curve is applied to them like to any other
         spec['specials'] = list(spec.get('specials') or []) + [[draw(st.integers(0, spec['n'] - 1)), draw(st.integers(0, D - 1)),
@@ -158,6 +161,11 @@ def check(case, obs):
             out = call(tr.to_mef, data, req_ch, curves + [curves[0]], sc_ch)
             out2 = call(tr.to_mef, data, req_ch, curves[:-1], sc_ch) if k > 0 else out
             obs.claim('refuse', raised(out) and raised(out2), 'different numbers of curves and channels accepted')
+            # ... also when the curve channels are left to the default (all channels)
+            allc = [_curve(1.0 + 0.1 * i, 1.0) for i in range(D + 1)]
+            out3 = call(tr.to_mef, data, None, allc, None)
+            out4 = call(tr.to_mef, data, None, allc[:D - 1], None) if D > 1 else out3
+            obs.claim('refuse', raised(out3) and raised(out4), lambda: 'with default curve channels, %d or %d curves for %d channels were accepted' % (D + 1, D - 1, D))
         return
 
     before = fingerprint(data)
